@@ -21,6 +21,7 @@ import (
 	"github.com/ozontech/file.d/fd"
 	"github.com/ozontech/file.d/pipeline"
 	"github.com/ozontech/file.d/pipeline/metadata"
+	_ "github.com/ozontech/file.d/plugin/action/split"
 	kafkain "github.com/ozontech/file.d/plugin/input/kafka"
 	"github.com/prometheus/client_golang/prometheus"
 	"github.com/twmb/franz-go/pkg/kgo"
@@ -167,14 +168,31 @@ func (m *monitor) onInRet(r *recState, seq uint64) {
 	}
 }
 
+// split children carry the id "<record id>#k"
+func (m *monitor) parentOf(id string) (*recState, bool) {
+	if i := strings.LastIndexByte(id, '#'); i > 0 {
+		if r := m.byID[id[:i]]; r != nil && r.Kids > 0 {
+			return r, true
+		}
+	}
+	return nil, false
+}
+
 func (m *monitor) onAct(id, decision string) {
 	m.mu.Lock()
 	defer m.mu.Unlock()
 	m.tick()
 	r := m.byID[id]
 	if r == nil {
+		if _, ok := m.parentOf(id); ok {
+			m.stat["split_child_action_"+decision]++
+			return
+		}
 		m.flags["harness:action-saw-unknown-id"] = true
 		return
+	}
+	if r.Kids > 0 {
+		m.flags["harness:split-parent-reached-the-script-action"] = true
 	}
 	r.act = decision
 	m.stat["action_"+decision]++
@@ -189,6 +207,11 @@ func (m *monitor) onOut(id string) {
 	m.tick()
 	r := m.byID[id]
 	if r == nil {
+		if pr, ok := m.parentOf(id); ok {
+			pr.kidsOut++
+			m.stat["split_children_to_output"]++
+			return
+		}
 		m.flags["harness:output-saw-unknown-id"] = true
 		return
 	}
@@ -196,6 +219,20 @@ func (m *monitor) onOut(id string) {
 	r.outIdx = m.outSeq
 }
 
+func (m *monitor) ackRecord(r *recState) {
+	if r.acked {
+		m.stat["events_acked_again"]++ // a record delivered twice by the client
+		return
+	}
+	r.acked = true
+	m.stat["events_acked"]++
+	m.markFinished(r)
+}
+
+// onAck: the output's send returned for a batch holding these events
+// (children of split records and their parents included). A split record is
+// acknowledged when its parent and all its children handed to the output
+// have been sent.
 func (m *monitor) onAck(ids []string) {
 	m.mu.Lock()
 	defer m.mu.Unlock()
@@ -203,37 +240,72 @@ func (m *monitor) onAck(ids []string) {
 	m.stat["batches_acked"]++
 	for _, id := range ids {
 		if r := m.byID[id]; r != nil {
-			if r.acked {
-				m.stat["events_acked_again"]++ // a record delivered twice by the client
+			if r.Kids > 0 {
+				r.parentAck = true
+				m.stat["split_parents_acked"]++
+				if r.kidsAcked >= r.kidsOut {
+					m.ackRecord(r)
+				}
 				continue
 			}
-			r.acked = true
-			m.stat["events_acked"]++
-			m.markFinished(r)
+			m.ackRecord(r)
+		} else if pr, ok := m.parentOf(id); ok {
+			pr.kidsAcked++
+			m.stat["split_children_acked"]++
+			if pr.parentAck && pr.kidsAcked >= pr.kidsOut && !pr.acked {
+				m.ackRecord(pr)
+			}
 		}
 	}
 }
 
-func (m *monitor) onCommit(id string, cur map[partKey]head) {
+type commitInfo struct {
+	ID       string
+	Kind     string // regular | split-parent | split-child
+	SourceID uint64
+	Offset   int64
+}
+
+func (m *monitor) onCommit(ci commitInfo, cur map[partKey]head) {
 	m.mu.Lock()
 	defer m.mu.Unlock()
 	m.tick()
 	m.stat["commit_calls"]++
-	r := m.byID[id]
-	if r == nil {
-		m.flags["harness:commit-of-unknown-id"] = true
-	} else {
-		r.commits++
-		if r.commits > 1 {
-			m.stat["commit_calls_repeated"]++
-		} else {
-			m.stat["records_committed"]++
+	m.stat["commit_calls_event_kind_"+ci.Kind]++
+	r := m.byID[ci.ID]
+	if r == nil || !r.served || ci.Kind == "split-child" {
+		// Plugin.Commit turns whatever it is given into a mark: an event that
+		// is not a record handed to file.d can only produce a mark that
+		// belongs to no consumed record (kgo may swallow it if the partition's
+		// head is already higher, so the call itself is the observation)
+		what := "unknown-event"
+		if _, ok := m.parentOf(ci.ID); ok || ci.Kind == "split-child" {
+			what = "split-child"
+		} else if r != nil {
+			what = "record-not-handed"
 		}
-		if !r.finished() {
-			m.stat["commit_of_unfinished_record"]++
-		}
-		m.tracef("commit %s", id)
+		m.stat["commit_calls_for_"+what]++
+		m.violation("C10:commit:input-commit-called-for-an-event-that-is-not-a-handed-record:"+what,
+			fmt.Sprintf("Plugin.Commit was called for event %q (kind %s, SourceID %d, Offset %d) which is not a record handed to file.d; the kafka input marks Topics[%d] partition %d offset %d for it", ci.ID, ci.Kind, ci.SourceID, ci.Offset, ci.SourceID>>16, ci.SourceID&0xFFFF, (ci.Offset>>16)+1),
+			map[string]any{"event_id": ci.ID, "event_kind": ci.Kind, "source_id": ci.SourceID, "event_offset": ci.Offset})
+		m.observeHeads(cur, nil)
+		return
 	}
+	r.commits++
+	if r.commits > 1 {
+		m.stat["commit_calls_repeated"]++
+	} else {
+		m.stat["records_committed"]++
+	}
+	kind := r.Kind
+	if r.Kids > 0 {
+		kind = "split-record"
+	}
+	m.stat["commit_calls_record_kind_"+kind]++
+	if !r.finished() {
+		m.stat["commit_of_unfinished_record"]++
+	}
+	m.tracef("commit %s", ci.ID)
 	m.observeHeads(cur, r)
 }
 
@@ -364,11 +436,18 @@ func (i *monInput) Stop() {
 }
 func (i *monInput) Commit(e *pipeline.Event) {
 	id := eventID(e)
+	ci := commitInfo{ID: id, Kind: "regular", SourceID: uint64(e.SourceID), Offset: e.Offset}
+	switch {
+	case e.IsChildKind():
+		ci.Kind = "split-child"
+	case e.IsChildParentKind():
+		ci.Kind = "split-parent"
+	}
 	i.commitMu.Lock()
 	i.real.Commit(e)
 	cur := i.mon.readHeads(i.real.VerifClient())
 	back0 := i.mon.statOf("head_moved_backwards")
-	i.mon.onCommit(id, cur)
+	i.mon.onCommit(ci, cur)
 	if i.mon.cs.Trace && i.mon.statOf("head_moved_backwards") != back0 {
 		cl := i.real.VerifClient()
 		i.mon.mu.Lock()
@@ -461,11 +540,14 @@ func (o *monOutput) send(_ *pipeline.WorkerData, b *pipeline.Batch) {
 	var ids []string
 	var gates []string
 	b.ForEach(func(e *pipeline.Event) {
-		ids = append(ids, eventID(e))
 		if n := e.Root.Dig("og"); n != nil {
 			gates = append(gates, strings.Clone(n.AsString()))
 		}
 	})
+	// all events of the batch, split parents included (ForEach leaves them out)
+	for _, e := range pipeline.VerifBatchEvents(b) {
+		ids = append(ids, eventID(e))
+	}
 	n := o.seq.Add(1)
 	if l := len(o.spec.DelayUs); l > 0 {
 		if d := o.spec.DelayUs[int(n)%l]; d > 0 {
@@ -575,7 +657,11 @@ func (e *engine) setup() error {
 		PluginStaticInfo:  &infoCopy,
 		PluginRuntimeInfo: &pipeline.PluginRuntimeInfo{Plugin: e.in},
 	})
-	sj, _ := simplejson.NewJson([]byte(`[{"type":"c10_script"}]`))
+	chain := `[{"type":"c10_script"}]`
+	if cs.SplitPct > 0 {
+		chain = `[{"type":"split","field":"items"},{"type":"c10_script"}]` // the real split action
+	}
+	sj, _ := simplejson.NewJson([]byte(chain))
 	if err := fd.SetupActions(p, fd.DefaultPluginRegistry, sj, map[string]int{"capacity": cs.Capacity, "gomaxprocs": cs.Procs}); err != nil {
 		return err
 	}
@@ -782,6 +868,27 @@ func (e *engine) addTopicsFromParts() {
 			ps = append(ps, fp)
 		}
 		e.broker.addTopic(t.Name, ps)
+	}
+	// partitions without records exist at the broker but are not assigned to
+	// this group member (as if another member owned them): the group leader's
+	// assignment is replaced by "the partitions that have records"
+	sparse := false
+	for _, t := range e.cs.Topics {
+		for _, p := range t.Parts {
+			if p.Records == 0 {
+				sparse = true
+			}
+		}
+	}
+	if sparse {
+		want := map[string][]int32{}
+		for k := range e.mon.parts {
+			want[k.Topic] = append(want[k.Topic], k.Part)
+		}
+		for t := range want {
+			sort.Slice(want[t], func(i, j int) bool { return want[t][i] < want[t][j] })
+		}
+		e.broker.override = func([]string) map[string][]int32 { return want }
 	}
 }
 
